@@ -125,6 +125,7 @@ type Explorer struct {
 	SolverQueries, SolverSat, SolverUnsat, SolverUnknown, SolverErrors int
 	finished  int64
 	canon     int
+	violPerID map[string]int
 	Truncated bool
 }
 
@@ -293,12 +294,19 @@ func (ex *Explorer) record(w *Worker, r *PathResult) {
 	case "unencodable":
 		ex.Unenc[r.Msg]++
 	case "bound":
-		ex.Bounds[r.Msg]++
+		ex.Bounds[r.Msg+" "+strings.Join(r.Notes, ";")+" "+fmt.Sprint(r.Vector)]++
 	case "panic":
 		ex.Panics[r.Msg]++
 	}
-	if len(r.Violations) > 0 && len(ex.Violations) < 200 {
-		ex.Violations = append(ex.Violations, *r)
+	if len(r.Violations) > 0 {
+		if ex.violPerID == nil {
+			ex.violPerID = map[string]int{}
+		}
+		id := r.Violations[0].AssertID
+		ex.violPerID[id]++
+		if ex.violPerID[id] <= 30 && len(ex.Violations) < 600 {
+			ex.Violations = append(ex.Violations, *r)
+		}
 	}
 	if (r.Outcome == "ok" || r.Outcome == "panic") && len(r.Violations) == 0 {
 		k := int64(ex.Cfg.SampleEvery)
@@ -443,6 +451,11 @@ func (in *Interp) RunPath(fn *ssa.Function, it *WorkItem) (res *PathResult) {
 	for i := range p.violations {
 		// vectors for violations come from their own models
 		_ = i
+	}
+	if res.Outcome == "bound" || res.Outcome == "unencodable" {
+		if p.modelOK {
+			res.Vector = in.vector(p.model)
+		}
 	}
 	res.Violations = p.violations
 	for c := range p.covers {
